@@ -16,6 +16,7 @@ let table : (string * (z list -> z list)) list = [
   ("aruns", run_aruns);
   ("aa_spans", run_aa_spans);
   ("hair_spans", run_hair_spans);
+  ("hair_aa", run_hair_aa);
   ("line_clip", run_line_clip);
   ("dash_new", run_dash_new);
   ("dash", run_dash);
